@@ -44,7 +44,9 @@ def gen_case(rng, tier):
         ops=("calc", "proj", "sel", "dedup", "sort", "slice", "chain", "join", "mat"),
         weights={"sort": 3.0, "slice": 2.5, "proj": 1.5, "dedup": 1.2, "chain": 0.7, "join": 0.7, "mat": 0.5},
         max_depth=2 if tier == "quick" or rng.random() < 0.6 else 3,
-        total_sort_prob=0.75,
+        # mostly sorts that are total on their own; one case in three has partial sorts, whose
+        # order becomes total only through an earlier sort's terms (composed ORDER BY)
+        total_sort_prob=rng.choice([0.75, 0.75, 0.25]),
         raw_leaves=False,
         special_leaves=False,
         max_rows_choices=(0, 2, 3, 5, 8),
@@ -57,6 +59,20 @@ def gate(rel, mrel) -> bool:
     from lsst.daf.relation import sql
 
     return isinstance(rel, sql.Select) and rel.has_sort and mrel.det and mrel.sort_visible
+
+
+def sort_nodes(rel) -> int:
+    import lsst.daf.relation as R
+
+    return sum(1 for n in interp.walk(rel) if isinstance(n, R.UnaryOperationRelation) and isinstance(n.operation, R.Sort))
+
+
+def gate_stable(rel, mrel_stable) -> bool:
+    """Back-to-back sorts: the order is total only through the earlier sort's terms acting as
+    tie-breakers.  Asserted only when the engine kept every sort of the program at the outermost
+    query level (exactly one Sort node in the whole tree - the Select's own, which then has to
+    hold the composed terms); a sort nested in a sub-query gives no such guarantee."""
+    return gate(rel, mrel_stable) and sort_nodes(rel) == 1
 
 
 def run_case(case):
@@ -96,10 +112,19 @@ def run_case(case):
                 c["sorts_already_nested_deeper_counted"] = c.get("sorts_already_nested_deeper_counted", 0) + 1
         outcome = "refused" if refused else "built"
         m = model.Model(case["leaves"], sql_slices=True, strict_fragile=True)
+        # same rows, but back-to-back sorts compose stably; only trusted where gate_stable() holds
+        ms = model.Model(case["leaves"], sql_slices=True, strict_fragile=True, stable_sorts=True)
         has_mat = "m" in gen.op_signature(prog)
+
+        def plain(p):
+            try:
+                return m.eval(p)
+            except model.Skip:
+                return None
+
         for sub, subrel in b.nodes:
             try:
-                want = m.eval(sub)
+                want = ms.eval(sub)
             except model.Skip:
                 c["skipped_nondeterministic"] = c.get("skipped_nondeterministic", 0) + 1
                 break
@@ -107,9 +132,21 @@ def run_case(case):
             child_gate = False
             if sub[0] == "slice":
                 child = b.memo.get(repr(sub[1]))
-                child_gate = child is not None and gate(child, m.eval(sub[1]))
+                pc, sc = plain(sub[1]), ms.eval(sub[1])
+                if pc is not None:
+                    child_gate = child is not None and gate(child, pc)
+                if not child_gate and (pc is None or not pc.det) and sc.det:
+                    # the slice is deterministic only because an earlier sort breaks the ties of
+                    # a later one: that needs both sorts at the outermost query level
+                    if child is not None and gate_stable(child, sc):
+                        child_gate = True
+                        c["slices_after_composed_sorts_checked"] = c.get("slices_after_composed_sorts_checked", 0) + 1
+                    elif not model.slice_order_independent(sc.rows, sub[2], sub[3]):
+                        c["skipped_nondeterministic"] = c.get("skipped_nondeterministic", 0) + 1
+                        break
             if not (is_root or child_gate):
                 continue
+            pw = plain(sub)
             for reverse in (False, True):
                 db.conn.exec_driver_sql(f"PRAGMA reverse_unordered_selects={int(reverse)}")
                 try:
@@ -130,11 +167,17 @@ def run_case(case):
                     if model.canon(got) != model.canon(want.rows):
                         out["violations"].append({"kind": "slice_of_sorted_relation_wrong_rows", "detail": f"{model.show(sub)} tree {short(subrel, 300)} got {short(got, 300)} want {short(want.rows, 300)} (reverse={int(reverse)})"})
                         return out
-                if gate(subrel, want):
+                if pw is not None and gate(subrel, pw):
                     c["ordered_lists_compared"] = c.get("ordered_lists_compared", 0) + 1
                     outcome = "ordered" if outcome == "built" else outcome
                     if got != want.rows:
                         out["violations"].append({"kind": "order_not_honoured", "detail": f"{model.show(sub)} tree {short(subrel, 300)} sql {short(db.text(engines['sql'].to_executable(subrel)), 400) if not has_mat else ''} got {short(got, 300)} want {short(want.rows, 300)} (reverse={int(reverse)})"})
+                        return out
+                elif gate_stable(subrel, want):
+                    c["ordered_lists_compared_composed_sorts"] = c.get("ordered_lists_compared_composed_sorts", 0) + 1
+                    outcome = "ordered_by_composed_sorts" if outcome == "built" else outcome
+                    if got != want.rows:
+                        out["violations"].append({"kind": "composed_sort_order_not_honoured", "detail": f"{model.show(sub)} tree {short(subrel, 300)} got {short(got, 300)} want {short(want.rows, 300)} (reverse={int(reverse)})"})
                         return out
                 elif is_root:
                     c["root_order_not_asserted"] = c.get("root_order_not_asserted", 0) + 1
